@@ -196,6 +196,12 @@ def run(prog: Program, L: Ledger) -> None:
     L.assume("reinsert_atoms(atoms, removed, indices) inverts `del atoms[indices]` when `removed` is the sub-structure taken before deletion (decided separately under C19)")
     L.assume("atoms appended in the current trial are not referenced by any constraint")
 
+    # the lemma the term algebra rests on (reinsert inverts delete) is discharged here as well, so a
+    # change that breaks it is reported under this property too
+    from . import c19
+
+    L.rule("UL", "lemma used by U1: reinsert_atoms(atoms, removed, indices) inverts `del atoms[indices]` (scatter/gather shape rules of C19/R1)")
+    c19.check_reinsert(prog, L, "UL")
     scs = scenarios(prog, with_composites=True, iterations=1)
     if L.tier == "thorough":
         scs += [s for s in scenarios(prog, with_composites=False, iterations=2)]
